@@ -37,14 +37,22 @@ class Point:
 class Scheduler:
     """Records/replays choices.  `prefix` is a list of ints."""
 
-    def __init__(self, prefix: list[int] | None = None, kinds: list[str] | None = None):
+    def __init__(self, prefix=None, kinds: list[str] | None = None):
+        """prefix: list of ints, or a sparse dict {point index: choice} (all others 0)."""
+        if isinstance(prefix, dict):
+            mx = max([int(k) for k in prefix] + [-1])
+            lst = [0] * (mx + 1)
+            for k, v in prefix.items():
+                lst[int(k)] = v
+            prefix = lst
         self.prefix = list(prefix or [])
         self.prefix_kinds = kinds
         self.points: list[Point] = []
+        self.recording = True
 
     def choose(self, kind: str, n: int, labels: tuple = ()) -> int:
         assert n >= 1
-        if n == 1:
+        if n == 1 or not self.recording:
             return 0
         i = len(self.points)
         if i < len(self.prefix):
